@@ -101,6 +101,8 @@ static int param_role (const ProgSpec *ps, int var, int *width)
 }
 
 static int finite_only;
+static int emu_only;             /* this run has no native code: only the emulator (and the reference) are exercised */
+static int mode_emu_alone;       /* modes that judge the emulator also run programs no x86 target has code for */
 static int ref_emu_flag = -1;    /* which monitor a reference-vs-emulation difference is reported under (default: by mode) */
 
 static void choose_params (const ProgSpec *ps, VhRng *r, int n)
@@ -177,7 +179,7 @@ static int setup_run (const ProgSpec *ps, const RunCfg *cfg, RunSetup *rs)
       long ext_lo, ext_hi;
       a->stride = cfg->m > 1 || ps->is2d ? ((rowbytes + cfg->gap[i] + al - 1) / al * al) : 0;
       if (ps->is2d && a->stride == 0) a->stride = al;
-      ext_lo = lo * a->esz; ext_hi = (long) (cfg->m - 1) * a->stride + hi * a->esz;
+      ext_lo = lo * a->esz; ext_hi = (long) ((cfg->m > 0 ? cfg->m : 1) - 1) * a->stride + hi * a->esz;     /* m == 0: laid out like one row, none of it entitled */
       if (cfg->placement == PL_TRAIL) a->off0 = (ARENA_DATA_BYTES - ext_hi) / al * al;
       else if (cfg->placement == PL_LEAD) a->off0 = (-ext_lo + al - 1) / al * al;
       else a->off0 = ((1024 - ext_lo + 63) / 64 * 64) + (cfg->off[i] / al * al);
@@ -426,11 +428,11 @@ static int compare_dests (const ProgSpec *ps, const RunCfg *cfg, const RunSetup 
         if (px[o] == py[o]) continue;
         /* locate */
         if (cfg->striped) { row = j; rel = (long) o - a->off0; }
-        else { rel = (long) o - a->off0; row = a->stride ? rel / a->stride : 0; if (row < 0) row = 0; if (row >= cfg->m) row = cfg->m - 1; rel -= row * a->stride; }
+        else { rel = (long) o - a->off0; row = a->stride ? rel / a->stride : 0; if (row >= cfg->m) row = cfg->m - 1; if (row < 0) row = 0; rel -= row * a->stride; }
         el = rel >= 0 ? rel / a->esz : -1;
         if (el >= a->lo && el < a->hi && rel >= 0) {
           uint64_t vx = gen_rd (px + (o - (size_t) (rel % a->esz)), a->esz), vy = gen_rd (py + (o - (size_t) (rel % a->esz)), a->esz);
-          if (use_taint && taint_buf && el < cfg->n && taint_buf[(size_t) row * cfg->n + el]) { o += a->esz - 1 - (size_t) (rel % a->esz); continue; }
+          if (use_taint && taint_buf && cfg->m > 0 && el < cfg->n && taint_buf[(size_t) row * cfg->n + el]) { o += a->esz - 1 - (size_t) (rel % a->esz); continue; }
           f->var = a->var; f->row = (int) row; f->elem = el; f->sub[0] = 0;
           if (use_taint) {
             /* float destination: classify the flush-to-zero boundary (one side +-0, the other +-smallest normal) per lane */
@@ -515,6 +517,9 @@ static void set_executor (OrcExecutor *ex, OrcProgram *p, const ProgSpec *ps, co
 {
   int i;
   memset (ex, 0, sizeof *ex);
+  /* an executor is not necessarily fresh: generated wrappers use an uninitialised one on the stack, callers reuse them */
+  ex->counter1 = ex->counter2 = ex->counter3 = 0x12345;
+  { int k; for (k = 0; k < 4; k++) ex->accumulators[k] = 0x5a5a5a5a; }
   orc_executor_set_program (ex, p);
   orc_executor_set_n (ex, io->n);
   if (ps->is2d) orc_executor_set_m (ex, io->m);
@@ -544,6 +549,7 @@ static int run_one (OrcProgram *p, ProgSpec *ps, const Tgt *tg, const RunCfg *cf
 #define PUSH(K) do { f.kind = (K); if ((report_mask & (1u << (K))) && nf < nfl) fl[nf++] = f; } while (0)
   memset (&f, 0, sizeof f); f.var = -1;
 
+  if (emu_only) goto emulation;
   /* --- native --- */
   set_executor (exA, p, ps, &rs.ioA);
   memset (&st, 0, sizeof st);
@@ -574,6 +580,7 @@ static int run_one (OrcProgram *p, ProgSpec *ps, const Tgt *tg, const RunCfg *cf
     { uint16_t tag; memcpy (&tag, st.fenv + 8, 2); if (tag != 0xffff) { bad = 1; snprintf (f.sub, sizeof f.sub, "x87tag"); snprintf (buf + strlen (buf), sizeof buf - strlen (buf), "x87/MMX tag word %#x (not empty); ", tag); } }
     if (bad) { snprintf (f.what, sizeof f.what, "after call: %s", buf); PUSH (F_ABI); f.sub[0] = 0; }
   }
+emulation:
   /* --- emulation --- */
   set_executor (&exB, p, ps, &rs.ioB);
   arena_armed = 1;
@@ -602,7 +609,7 @@ static int run_one (OrcProgram *p, ProgSpec *ps, const Tgt *tg, const RunCfg *cf
     gen_interp (ps, &rs.ioC);
   }
   /* --- compare --- */
-  {
+  if (!emu_only) {
     int r = compare_dests (ps, cfg, &rs, 0, 1, &f, float_mode);
     if (r == 1) PUSH (float_mode ? F_FLOAT : F_MISMATCH);
     else if (r == 2) {
@@ -612,13 +619,13 @@ static int run_one (OrcProgram *p, ProgSpec *ps, const Tgt *tg, const RunCfg *cf
       else if (check_canaries (ps, cfg, &rs, 1, 1, &g)) { g.c1 = f.c1; g.c2 = f.c2; g.c3 = f.c3; f = g; PUSH (F_CANARY_EMU); }
     }
   }
-  if (float_mode && want_ref) {
+  if (float_mode && want_ref && !emu_only) {
     if (check_nan_propagation (ps, cfg, &rs, 0, &f)) PUSH (F_NAN);
     else if (check_nan_propagation (ps, cfg, &rs, 1, &f)) PUSH (F_NAN);
   }
   accn = 0;
   for (i = 0; i < ps->nvars; i++) if (ps->vars[i].kind == VK_ACC) {
-    if ((uint32_t) exA->accumulators[accn] != (uint32_t) exB.accumulators[accn]) {
+    if (!emu_only && (uint32_t) exA->accumulators[accn] != (uint32_t) exB.accumulators[accn]) {
       f.var = i; snprintf (f.what, sizeof f.what, "accumulator %s: native=%#x emulated=%#x", ps->vars[i].name, exA->accumulators[accn], exB.accumulators[accn]);
       PUSH (F_ACC);
     }
@@ -635,7 +642,7 @@ static int run_one (OrcProgram *p, ProgSpec *ps, const Tgt *tg, const RunCfg *cf
   }
   /* canaries */
   if (nf == 0 || full_canary) {
-    if (check_canaries (ps, cfg, &rs, 0, full_canary, &f)) PUSH (F_CANARY_NATIVE);
+    if (!emu_only && check_canaries (ps, cfg, &rs, 0, full_canary, &f)) PUSH (F_CANARY_NATIVE);
     else if (check_canaries (ps, cfg, &rs, 1, full_canary, &f)) PUSH (F_CANARY_EMU);
   }
   restore_run (cfg, &rs, nf > 0, want_ref);
@@ -838,12 +845,16 @@ static void run_program (ProgSpec *ps, long caseidx, VhRng *r, int is_single)
     OrcCompileResult res; OrcProgram *p;
     int nlist[160], nn = 0, i, ci, reported = 0;
     int W = tg->vecbytes;
+    static int did_emu_alone; if (ti == 0) did_emu_alone = 0;
     p = compile_for (ps, tg, &res);
     vh_countf (1, "compile.%s.%s", tg->name, ORC_COMPILE_RESULT_IS_SUCCESSFUL (res) ? "ok" : ORC_COMPILE_RESULT_IS_FATAL (res) ? "fatal" : "nonfatal");
+    emu_only = 0;
     if (!ORC_COMPILE_RESULT_IS_SUCCESSFUL (res) || !p->code_exec || p->code_exec == (void *) orc_executor_emulate) {
-      orc_program_free (p); continue;
+      /* no native code on this target (no rule, register overflow): the emulator alone still has to honour the property */
+      if (mode_emu_alone && !did_emu_alone && !ORC_COMPILE_RESULT_IS_FATAL (res) && p->orccode) { emu_only = 1; did_emu_alone = 1; vh_count ("cases.emulated_without_native_code", 1); }
+      else { orc_program_free (p); continue; }
     }
-    for (i = 0; i < ps->ninsns; i++) {
+    if (!emu_only) for (i = 0; i < ps->ninsns; i++) {
       const PInsn *in = &ps->insns[i];
       if (vh_set_addf ("native_ops", "%s:%s:x%d", tg->name, gen_op (in)->name, in->mult)) { }
     }
@@ -871,6 +882,7 @@ static void run_program (ProgSpec *ps, long caseidx, VhRng *r, int is_single)
           memset (&cfg, 0, sizeof cfg);
           cfg.n = n; cfg.placement = pl;
           cfg.m = ps->is2d ? (ps->const_m ? ps->const_m : 1 + (int) vh_randn (r, 4)) : 1;
+          if (ps->is2d && !ps->const_m && vh_chance (r, 1, 12)) cfg.m = 0;       /* no rows: nothing may be touched */
           cfg.striped = (ps->is2d && pl != PL_MID && mode_striped && n * 8 <= ARENA_PAGE) ? (int) vh_randn (r, 2) : 0;
           cfg.mxcsr = (mode_profile & GP_FLOAT) || !strcmp (vh_args.mode, "c10") ? mxcsr_set[vh_randn (r, 6)] : 0x1f80;
           /* the emulator's meaning is judged in the default floating-point environment (what a caller's FTZ/DAZ/rounding bits do to it is C18's question) */
@@ -891,7 +903,7 @@ static void run_program (ProgSpec *ps, long caseidx, VhRng *r, int is_single)
           vh_countf (1, "runs.placement.%s%s", pl_name[pl], cfg.striped ? ".striped" : "");
           if (ps->is2d) vh_count ("runs.2d", 1);
           vh_count ("elements", (uint64_t) n * cfg.m);
-          if (nf == 0) {
+          if (nf == 0 && !emu_only) {
             int reg = (exA->counter1 > 0) | ((exA->counter2 > 0) << 1) | ((exA->counter3 > 0) << 2);
             vh_set_addf ("regions", "%s:%d", tg->name, reg);
             if (is_single) vh_set_addf ("single_regions", "%s:%s:%d", tg->name, gen_op (&ps->insns[0])->name, reg);
@@ -945,7 +957,7 @@ int main (int argc, char **argv)
     N_single = -1; N_pairs = -1; N_random = vh_args.thorough ? 400000 : 40000; N_special = vh_args.thorough ? 40000 : 4000; N_regs = vh_args.thorough ? 60000 : 6000;
   } else if (!strcmp (mode, "c03")) {
     report_mask = (1u << F_FAULT_NATIVE) | (1u << F_FAULT_EMU) | (1u << F_CANARY_NATIVE) | (1u << F_CANARY_EMU) | (1u << F_SRC_CHANGED) | (1u << F_ABI);
-    mode_prop = "C03"; mode_profile = GP_INT | GP_FLOAT | GP_ACC | GP_2D | GP_HINTS | GP_EXPLICIT_LS | GP_SPECIAL; mode_placements = (1 << PL_TRAIL) | (1 << PL_LEAD); mode_striped = 1; want_ref = 0;
+    mode_prop = "C03"; mode_profile = GP_INT | GP_FLOAT | GP_ACC | GP_2D | GP_HINTS | GP_EXPLICIT_LS | GP_SPECIAL; mode_placements = (1 << PL_TRAIL) | (1 << PL_LEAD); mode_striped = 1; want_ref = 0; mode_emu_alone = 1;
     N_single = -1; N_pairs = vh_args.thorough ? -1 : 4000; N_random = vh_args.thorough ? 200000 : 20000; N_special = vh_args.thorough ? 60000 : 6000; N_regs = vh_args.thorough ? 40000 : 4000;
   } else if (!strcmp (mode, "c10")) {
     report_mask = (1u << F_FAULT_NATIVE) | (1u << F_CANARY_NATIVE) | (1u << F_ABI);
@@ -958,12 +970,12 @@ int main (int argc, char **argv)
   } else if (!strcmp (mode, "c02f")) {
     /* float/double opcodes: emulation vs the reference (the native comparison of the same runs is C18's and is not reported here) */
     report_mask = (1u << F_REF_EMU) | (1u << F_FAULT_EMU) | (1u << F_CANARY_EMU);
-    mode_prop = "C02"; mode_profile = GP_FLOAT | GP_HINTS | GP_2D; mode_placements = 1 << PL_MID; want_ref = 1; float_mode = 1; finite_only = 0; ref_emu_flag = F_REF_EMU;
+    mode_prop = "C02"; mode_profile = GP_FLOAT | GP_HINTS | GP_2D; mode_placements = 1 << PL_MID; want_ref = 1; float_mode = 1; finite_only = 0; ref_emu_flag = F_REF_EMU; mode_emu_alone = 1;
     N_single = -1; N_pairs = vh_args.thorough ? -1 : 3000; N_random = vh_args.thorough ? 80000 : 8000; N_special = 0;
   } else if (!strcmp (mode, "c02x")) {
     /* multi-instruction programs: emulation vs reference interpreter */
     report_mask = (1u << F_REF_EMU) | (1u << F_FAULT_EMU) | (1u << F_CANARY_EMU);
-    mode_prop = "C02"; mode_profile = GP_INT | GP_ACC | GP_2D | GP_EXPLICIT_LS | GP_SPECIAL; mode_placements = 1 << PL_MID; want_ref = 1;
+    mode_prop = "C02"; mode_profile = GP_INT | GP_ACC | GP_2D | GP_EXPLICIT_LS | GP_SPECIAL; mode_placements = 1 << PL_MID; want_ref = 1; mode_emu_alone = 1;
     N_single = -1; N_pairs = vh_args.thorough ? -1 : 6000; N_random = vh_args.thorough ? 250000 : 25000; N_special = vh_args.thorough ? 40000 : 4000;
   } else if (!strcmp (mode, "c11x")) {
     /* every feature-flag subset of sse and mmx (64-bit): single-opcode programs must compute the same results */
@@ -1017,6 +1029,20 @@ int main (int argc, char **argv)
       gen_init (&ps, nm);
       ok = gen_random (&ps, &r, mode_profile & ~GP_SPECIAL, 2 + (int) vh_randn (&r, 13));
       snprintf (desc, sizeof desc, "random %s", nm);
+    } else if (c < N_single + N_pairs + N_random + N_special && (c & 7) == 5 && (mode_profile & GP_ACC)) {
+      /* all four accumulators in use (the last slot of the executor, the fourth register to clear and reduce) */
+      static const char *accops[] = { "accw", "accl", "accsadubl" }; int k;
+      char nm[32]; snprintf (nm, sizeof nm, "acc4_%ld", c);
+      gen_init (&ps, nm);
+      for (k = 0; k < 4; k++) {
+        int oi = gen_op_index (accops[vh_randn (&r, 3)]); const RefOp *op = &ref_ops[oi]; PInsn *in = gen_add_insn (&ps, oi, 1); int q;
+        in->dest[0] = gen_add_var (&ps, VK_ACC, op->dsz[0]);
+        for (q = 0; q < 4; q++) if (op->ssz[q]) in->src[q] = gen_add_var (&ps, VK_SRC, op->ssz[q]);
+      }
+      if (vh_chance (&r, 1, 2)) { int oi = gen_op_index ("copyw"); PInsn *in = gen_add_insn (&ps, oi, 1); in->dest[0] = gen_add_var (&ps, VK_DEST, 2); in->src[0] = gen_add_var (&ps, VK_SRC, 2); }
+      if ((mode_profile & GP_2D) && vh_chance (&r, 1, 3)) ps.is2d = 1;
+      ok = 1;
+      snprintf (desc, sizeof desc, "acc4 %s", nm);
     } else if (c < N_single + N_pairs + N_random + N_special) {
       char nm[32]; snprintf (nm, sizeof nm, "spec_%ld", c);
       gen_init (&ps, nm);
